@@ -208,33 +208,39 @@ Definition touch (now : N) (u : suser) : suser := u <| u_last := now |>.
 Inductive hnr_effect (c : cfg) (st : sstate) (now rnd : N) (q : hq) (dl : nat) : sstate -> list out -> Prop :=
 | HE_none outs : Forall is_ans outs -> hnr_effect c st now rnd q dl st outs
 | HE_alloc i :
+    (2 <= dl)%nat ->
     cmd_of (chr (req_inb q dl) 0) = CV -> version_of (req_unpacked q dl) = src_PROTOCOL_VERSION ->
     find_available_from st now 0 = Some i ->
     hnr_effect c st now rnd q dl
       (upd st i (fun u => reset_session (claim now u) q (rnd mod 2147483648)))
       [mk_answer q (vack (rnd mod 2147483648) i) 84]
 | HE_login_fail i :
+    (2 <= dl)%nat ->
     cmd_of (chr (req_inb q dl) 0) = CL -> named_user q dl = Some (Z.of_nat i) -> precheck q dl = None ->
     check_user_and_ip c st now (Z.of_nat i) (h_from q) = false ->
     ~ login_hash_ok c st q dl i ->
     hnr_effect c st now rnd q dl (upd st i (touch now)) [mk_answer q s_LNAK 84]
 | HE_login_ok i :
+    (2 <= dl)%nat ->
     cmd_of (chr (req_inb q dl) 0) = CL -> named_user q dl = Some (Z.of_nat i) -> precheck q dl = None ->
     check_user_and_ip c st now (Z.of_nat i) (h_from q) = false ->
     login_hash_ok c st q dl i ->
     hnr_effect c st now rnd q dl (upd st i (set_login now))
       [mk_answer q (login_reply c (getu st i)) (u_downenc (getu st i))]
 | HE_option i f outs :
+    (2 <= dl)%nat ->
     is_option_cmd (cmd_of (chr (req_inb q dl) 0)) -> named_user q dl = Some (Z.of_nat i) -> precheck q dl = None ->
     check_auth_options c st now (Z.of_nat i) (h_from q) = false ->
     (forall u, ident (f u) = ident u) -> Forall is_ans outs ->
     hnr_effect c st now rnd q dl (upd st i f) outs
 | HE_ping i st' outs :
+    (2 <= dl)%nat ->
     cmd_of (chr (req_inb q dl) 0) = CP -> named_user q dl = Some (Z.of_nat i) -> precheck q dl = None ->
     check_auth c st now (Z.of_nat i) (h_from q) = false ->
     sec_same st st' -> Forall is_ans outs -> (forall j, j <> i -> getu st' j = getu st j) ->
     hnr_effect c st now rnd q dl st' outs
 | HE_data i st' outs :
+    (2 <= dl)%nat ->
     cmd_of (chr (req_inb q dl) 0) = CData -> named_user q dl = Some (Z.of_nat i) -> precheck q dl = None ->
     check_auth c st now (Z.of_nat i) (h_from q) = false ->
     sec_same st st' ->
@@ -360,10 +366,10 @@ Qed.
 
 (* -- classification of every result *)
 
-Lemma hV_effect c st now rnd q dl st' outs : cmd_of (chr (req_inb q dl) 0) = CV ->
+Lemma hV_effect c st now rnd q dl st' outs : (2 <= dl)%nat -> cmd_of (chr (req_inb q dl) 0) = CV ->
   hV st now rnd q (req_unpacked q dl) = (st', outs) -> hnr_effect c st now rnd q dl st' outs.
 Proof.
-  intros Ek. unfold hV. cbv zeta.
+  intros Hdl Ek. unfold hV. cbv zeta.
   destruct (version_of (req_unpacked q dl) =? src_PROTOCOL_VERSION) eqn:Ev.
   - apply N.eqb_eq in Ev. destruct (find_available_from st now 0) as [i|] eqn:Ef.
     + intros H; inversion H; subst. apply HE_alloc; assumption.
@@ -371,10 +377,10 @@ Proof.
   - intros H; inversion H; subst. apply HE_none, ans1.
 Qed.
 
-Lemma hL_effect c st now rnd q dl st' outs : cmd_of (chr (req_inb q dl) 0) = CL ->
+Lemma hL_effect c st now rnd q dl st' outs : (2 <= dl)%nat -> cmd_of (chr (req_inb q dl) 0) = CL ->
   hL login c st now q (req_unpacked q dl) = (st', outs) -> hnr_effect c st now rnd q dl st' outs.
 Proof.
-  intros Ek. unfold hL. cbv zeta.
+  intros Hdl Ek. unfold hL. cbv zeta.
   pose proof (named_of _ _ _ Ek) as Hn. pose proof (precheck_of _ _ _ Ek) as Hp. cbv iota in Hn, Hp.
   destruct (length (req_unpacked q dl) <? 17)%nat eqn:E17.
   { intros H; inversion H; subst. apply HE_none, ans1. }
@@ -424,10 +430,10 @@ Proof.
   intros H; inversion H; subst; apply HE_none, ans1.
 Qed.
 
-Lemma hS_effect c st now rnd q dl st' outs : cmd_of (chr (req_inb q dl) 0) = CS ->
+Lemma hS_effect c st now rnd q dl st' outs : (2 <= dl)%nat -> cmd_of (chr (req_inb q dl) 0) = CS ->
   hS c st now q (req_inb q dl) dl = (st', outs) -> hnr_effect c st now rnd q dl st' outs.
 Proof.
-  intros Ek. unfold hS. cbv zeta.
+  intros Hdl Ek. unfold hS. cbv zeta.
   pose proof (named_of _ _ _ Ek) as Hn. pose proof (precheck_of _ _ _ Ek) as Hp. cbv iota in Hn, Hp.
   destruct (dl <? 3)%nat. { intros H; inversion H; subst. apply HE_none, ans1. }
   set (uz := Z.of_N (b32_8to5 (chr (req_inb q dl) 1))) in *.
@@ -442,10 +448,10 @@ Proof.
   intros H; inversion H; subst. apply HE_none, ans1.
 Qed.
 
-Lemma hO_effect c st now rnd q dl st' outs : cmd_of (chr (req_inb q dl) 0) = CO ->
+Lemma hO_effect c st now rnd q dl st' outs : (2 <= dl)%nat -> cmd_of (chr (req_inb q dl) 0) = CO ->
   hO c st now q (req_inb q dl) dl = (st', outs) -> hnr_effect c st now rnd q dl st' outs.
 Proof.
-  intros Ek. unfold hO. cbv zeta.
+  intros Hdl Ek. unfold hO. cbv zeta.
   pose proof (named_of _ _ _ Ek) as Hn. pose proof (precheck_of _ _ _ Ek) as Hp. cbv iota in Hn, Hp.
   destruct (dl <? 3)%nat. { intros H; inversion H; subst. apply HE_none, ans1. }
   set (uz := Z.of_N (b32_8to5 (chr (req_inb q dl) 1))) in *.
@@ -460,10 +466,10 @@ Proof.
   intros H; inversion H; subst. apply HE_none, ans1.
 Qed.
 
-Lemma hN_effect c st now rnd q dl st' outs : cmd_of (chr (req_inb q dl) 0) = CN ->
+Lemma hN_effect c st now rnd q dl st' outs : (2 <= dl)%nat -> cmd_of (chr (req_inb q dl) 0) = CN ->
   hN c st now q (req_unpacked q dl) = (st', outs) -> hnr_effect c st now rnd q dl st' outs.
 Proof.
-  intros Ek. unfold hN. cbv zeta.
+  intros Hdl Ek. unfold hN. cbv zeta.
   pose proof (named_of _ _ _ Ek) as Hn. pose proof (precheck_of _ _ _ Ek) as Hp. cbv iota in Hn, Hp.
   destruct (length (req_unpacked q dl) <? 3)%nat. { intros H; inversion H; subst. apply HE_none, ans1. }
   set (uz := schar (chr (req_unpacked q dl) 0)) in *.
@@ -477,10 +483,10 @@ Proof.
     [intros; reflexivity|apply ans1].
 Qed.
 
-Lemma hP_effect c st now rnd q dl st' outs : cmd_of (chr (req_inb q dl) 0) = CP ->
+Lemma hP_effect c st now rnd q dl st' outs : (2 <= dl)%nat -> cmd_of (chr (req_inb q dl) 0) = CP ->
   hP c st now q (req_unpacked q dl) = (st', outs) -> hnr_effect c st now rnd q dl st' outs.
 Proof.
-  intros Ek. unfold hP.
+  intros Hdl Ek. unfold hP.
   pose proof (named_of _ _ _ Ek) as Hn. pose proof (precheck_of _ _ _ Ek) as Hp. cbv iota in Hn, Hp.
   destruct (h_id q =? 0). { intros H; inversion H; subst. apply HE_none. constructor. }
   destruct (_ <? 4)%nat. { intros H; inversion H; subst. apply HE_none. constructor. }
@@ -493,10 +499,10 @@ Proof.
   apply (HE_ping c st now rnd q dl i); assumption.
 Qed.
 
-Lemma hD_effect c st now rnd q dl st' outs : cmd_of (chr (req_inb q dl) 0) = CData ->
+Lemma hD_effect c st now rnd q dl st' outs : (2 <= dl)%nat -> cmd_of (chr (req_inb q dl) 0) = CData ->
   hD unz c st now q (req_inb q dl) dl = (st', outs) -> hnr_effect c st now rnd q dl st' outs.
 Proof.
-  intros Ek. unfold hD.
+  intros Hdl Ek. unfold hD.
   pose proof (named_of _ _ _ Ek) as Hn. pose proof (precheck_of _ _ _ Ek) as Hp. cbv iota in Hn, Hp.
   destruct (dl <? 6)%nat. { intros H; inversion H; subst. apply HE_none. constructor. }
   destruct (h_id q =? 0). { intros H; inversion H; subst. apply HE_none. constructor. }
@@ -513,19 +519,20 @@ Theorem hnr_effect_spec c st now rnd q dl st' outs :
   handle_null_request login unz c st now rnd q dl = (st', outs) -> hnr_effect c st now rnd q dl st' outs.
 Proof.
   rewrite hnr_eq. unfold hnr'.
-  destruct (dl <? 2)%nat. { intros H; inversion H; subst. apply HE_none. constructor. }
+  destruct (dl <? 2)%nat eqn:E2. { intros H; inversion H; subst. apply HE_none. constructor. }
+  apply Nat.ltb_ge in E2.
   cbv zeta. destruct (cmd_of (chr (req_inb q dl) 0)) eqn:Ek.
-  - apply hV_effect, Ek.
-  - apply hL_effect, Ek.
+  - apply hV_effect; assumption.
+  - apply hL_effect; assumption.
   - apply hI_effect.
   - intros H; inversion H; subst. apply HE_none, ans1.
-  - apply hS_effect, Ek.
-  - apply hO_effect, Ek.
+  - apply hS_effect; assumption.
+  - apply hO_effect; assumption.
   - apply hY_effect.
   - apply hR_effect.
-  - apply hN_effect, Ek.
-  - apply hP_effect, Ek.
-  - apply hD_effect, Ek.
+  - apply hN_effect; assumption.
+  - apply hP_effect; assumption.
+  - apply hD_effect; assumption.
   - intros H; inversion H; subst. apply HE_none. constructor.
 Qed.
 
